@@ -114,6 +114,12 @@ def install_virtual_time():
     time.monotonic = sim_monotonic
     time.perf_counter = sim_monotonic
     CLOCK.reset()
+    # The cyclic garbage collector runs finalizers (e.g. io objects' close(), which pedal's capture buffer
+    # implements in Python) whenever an allocation counter inherited from the parent process overflows: an
+    # uncontrolled source of event reordering.  One collection now, none during the run.
+    import gc
+    gc.collect()
+    gc.disable()
 
 
 def pedal_dir():
